@@ -505,6 +505,11 @@ class IRGenerator:
             self._check_builtin_annotation_args(annotation_class, item)
             annotation = annotation_class(item.name, namespace, item, *item.args, **item.kwargs)
         else:
+            if item.annotation_type_ns == namespace.name:
+                raise InvalidSpec(
+                    'Annotation type %s of the current namespace must be '
+                    'referenced without the namespace prefix.' %
+                    quote(item.annotation_type), item.lineno, item.path)
             if item.annotation_type_ns is not None:
                 namespace.add_imported_namespace(
                     self.api.ensure_namespace(item.annotation_type_ns),
